@@ -248,7 +248,16 @@ func genC31(g *gen) {
 	}
 	mgrPause := false
 	if fd := findFunc(mf, "Manager", "DisconnectAll"); fd != nil {
-		mgrPause = peerCall(fd.Body, func(s string) bool { return strings.HasSuffix(s, "reconnector.Pause") }) != token.NoPos
+		pp := peerCall(fd.Body, func(s string) bool { return strings.HasSuffix(s, "reconnector.Pause") })
+		early := peerPos(fd.Body, func(n ast.Node) bool { _, ok := n.(*ast.ReturnStmt); return ok })
+		// a top-level statement of the function, and no return statement before it
+		top := false
+		for _, st := range fd.Body.List {
+			if es, ok := st.(*ast.ExprStmt); ok && es.Pos() <= pp && pp < es.End() {
+				top = true
+			}
+		}
+		mgrPause = pp != token.NoPos && top && !(early != token.NoPos && early < pp)
 	}
 	mgrCallback := false
 	if fd := findFunc(mf, "", "NewManager"); fd != nil {
@@ -259,6 +268,9 @@ func genC31(g *gen) {
 			return true
 		})
 	}
+
+	// agent plumbing: which setting each parameter of the peer manager is read from in initComponents
+	plumb := peerAgentPlumbing()
 
 	if sched == nil || att == nil {
 		g.note("Reconnector.Schedule / attemptReconnect not found; facts set to false")
@@ -281,6 +293,78 @@ func genC31(g *gen) {
 	g.line("Definition gen_manager_schedules_on_disconnect : bool := %s.", coqBool(mgrSchedOnDisc))
 	g.line("Definition gen_manager_disconnectall_pauses : bool := %s.", coqBool(mgrPause))
 	g.line("Definition gen_manager_callback_is_handle_reconnect : bool := %s.", coqBool(mgrCallback))
+	for _, k := range []string{"InitialDelay", "MaxDelay", "Multiplier", "Jitter", "MaxAttempts", "KeepaliveInterval", "KeepaliveTimeout", "KeepaliveJitter"} {
+		g.line("Definition gen_agent_%s_from : string := %s%%string.", k, coqString(plumb[k]))
+	}
+}
+
+// peerAgentPlumbing resolves, in Agent.initComponents, the source expression of
+// every field of peerCfg.ReconnectConfig and of the keepalive parameters to a
+// path below a.cfg (local aliases such as `conns := a.cfg.Connections` are
+// substituted). Unknown / unrecognised -> "?".
+func peerAgentPlumbing() map[string]string {
+	out := map[string]string{}
+	for _, k := range []string{"InitialDelay", "MaxDelay", "Multiplier", "Jitter", "MaxAttempts", "KeepaliveInterval", "KeepaliveTimeout", "KeepaliveJitter"} {
+		out[k] = "?"
+	}
+	af := parseFile("internal/agent/agent.go")
+	fd := findFunc(af, "Agent", "initComponents")
+	if fd == nil {
+		return out
+	}
+	// single-assignment local aliases
+	alias := map[string]string{}
+	count := map[string]int{}
+	ast.Inspect(fd.Body, func(n ast.Node) bool {
+		if a, ok := n.(*ast.AssignStmt); ok && len(a.Lhs) == 1 && len(a.Rhs) == 1 {
+			if id, ok := a.Lhs[0].(*ast.Ident); ok {
+				count[id.Name]++
+				if a.Tok == token.DEFINE {
+					alias[id.Name] = peerNorm(src(a.Rhs[0]))
+				}
+			}
+		}
+		return true
+	})
+	var resolve func(e string, depth int) string
+	resolve = func(e string, depth int) string {
+		if depth > 5 {
+			return e
+		}
+		root := e
+		rest := ""
+		if i := strings.Index(e, "."); i >= 0 {
+			root, rest = e[:i], e[i:]
+		}
+		if v, ok := alias[root]; ok && count[root] == 1 && root != "a" {
+			return resolve(v+rest, depth+1)
+		}
+		return e
+	}
+	ast.Inspect(fd.Body, func(n ast.Node) bool {
+		a, ok := n.(*ast.AssignStmt)
+		if !ok || len(a.Lhs) != 1 || len(a.Rhs) != 1 {
+			return true
+		}
+		lhs := peerNorm(src(a.Lhs[0]))
+		switch lhs {
+		case "peerCfg.KeepaliveInterval", "peerCfg.KeepaliveTimeout", "peerCfg.KeepaliveJitter":
+			out[strings.TrimPrefix(lhs, "peerCfg.")] = resolve(peerNorm(src(a.Rhs[0])), 0)
+		case "peerCfg.ReconnectConfig":
+			if cl, ok := a.Rhs[0].(*ast.CompositeLit); ok {
+				for _, el := range cl.Elts {
+					if kv, ok := el.(*ast.KeyValueExpr); ok {
+						out[peerNorm(src(kv.Key))] = resolve(peerNorm(src(kv.Value)), 0)
+					}
+				}
+			}
+		}
+		if strings.HasPrefix(lhs, "peerCfg.ReconnectConfig.") {
+			out[strings.TrimPrefix(lhs, "peerCfg.ReconnectConfig.")] = resolve(peerNorm(src(a.Rhs[0])), 0)
+		}
+		return true
+	})
+	return out
 }
 
 // ---------------------------------------------------------------------------
@@ -424,6 +508,46 @@ func genC32(g *gen) {
 		})
 	}
 
+	// DisconnectAll: snapshot and map replacement in one m.mu section, before any Close
+	daAtomic := false
+	if fd := findFunc(mf, "Manager", "DisconnectAll"); fd != nil {
+		lock := peerCall(fd.Body, isMuLock)
+		unlock := peerCall(fd.Body, isMuUnlock)
+		reset := peerPos(fd.Body, func(n ast.Node) bool {
+			a, ok := n.(*ast.AssignStmt)
+			return ok && len(a.Lhs) == 1 && strings.HasSuffix(peerNorm(src(a.Lhs[0])), ".peers") && a.Tok == token.ASSIGN
+		})
+		cl := peerCall(fd.Body, func(s string) bool { return strings.HasSuffix(s, "conn.Close") })
+		daAtomic = peerBefore(lock, reset) && peerBefore(reset, unlock) && peerBefore(unlock, cl)
+	}
+	// Disconnect(id): entry deleted under m.mu
+	dAtomic := false
+	if fd := findFunc(mf, "Manager", "Disconnect"); fd != nil {
+		lock := peerCall(fd.Body, isMuLock)
+		unlock := peerCall(fd.Body, isMuUnlock)
+		del := peerCall(fd.Body, func(s string) bool { return s == "delete" })
+		dAtomic = peerBefore(lock, del) && peerBefore(del, unlock)
+	}
+	// the loops tear down their OWN connection (conn.Close), never "whatever is registered for the identity"
+	loopsOwn := true
+	for _, fd := range []*ast.FuncDecl{rl, kl} {
+		if fd == nil {
+			loopsOwn = false
+			continue
+		}
+		if peerCountCalls(fd.Body, func(s string) bool { return strings.HasSuffix(s, ".Disconnect") || strings.HasSuffix(s, ".DisconnectAll") }) > 0 {
+			loopsOwn = false
+		}
+		if peerCountCalls(fd.Body, func(s string) bool { return s == "conn.Close" }) < peerCountCalls(fd.Body, func(s string) bool { return strings.HasSuffix(s, ".handleDisconnect") }) {
+			loopsOwn = false
+		}
+	}
+	// the agent's cleanup runs synchronously inside the callback (so that lifecycleMu covers it)
+	agentSync := false
+	if fd := findFunc(af, "Agent", "handlePeerDisconnect"); fd != nil {
+		agentSync = peerPos(fd.Body, func(n ast.Node) bool { _, ok := n.(*ast.GoStmt); return ok }) == token.NoPos
+	}
+
 	if reg == nil || hd == nil {
 		g.note("Manager.registerConnection / handleDisconnect not found; facts set to false")
 	}
@@ -438,4 +562,8 @@ func genC32(g *gen) {
 	g.line("Definition gen_agent_cleanup_by_peer_id : bool := %s.", coqBool(agentByID))
 	g.line("Definition gen_agent_cleanup_checks_connection : bool := %s.", coqBool(agentChecksConn))
 	g.line("Definition gen_agent_callback_wired : bool := %s.", coqBool(wired))
+	g.line("Definition gen_disconnectall_snapshot_and_reset_atomic : bool := %s.", coqBool(daAtomic))
+	g.line("Definition gen_disconnect_delete_under_lock : bool := %s.", coqBool(dAtomic))
+	g.line("Definition gen_loops_close_their_own_connection : bool := %s.", coqBool(loopsOwn))
+	g.line("Definition gen_agent_cleanup_synchronous : bool := %s.", coqBool(agentSync))
 }
